@@ -16,6 +16,7 @@ from ._transform import (
     Stack,
     Transform,
 )
+from ._transform.accumulate import _check_expects_grad
 from ._utils import _as_tensor_list, _check_optional_positive_chunk_size, _get_leaf_tensors
 
 
@@ -100,6 +101,9 @@ def mtl_backward(
 
     shared_params = list(shared_params)
     tasks_params = [list(task_params) for task_params in tasks_params]
+
+    for param in [*shared_params, *(p for task_params in tasks_params for p in task_params)]:
+        _check_expects_grad(param)
 
     # Task-specific transforms. Each of them computes and accumulates the gradient of the task's
     # loss w.r.t. the task's specific parameters, and computes and backpropagates the gradient of
